@@ -401,4 +401,242 @@ theorem removeProg_list (p : ρ → Bool) (xs : List ρ) :
   unfold removeProg
   simpa using h1
 
+/-! ### partition -/
+
+def PartPost (p : ρ → Bool) (xs : List ρ) (r : Option (List ρ × Int)) : Prop :=
+  ∃ A' B', r = some (A' ++ B', ((A'.length : Nat) : Int)) ∧ (∀ a ∈ A', p a = true) ∧ (∀ b ∈ B', p b = false) ∧
+    (A' ++ B').Perm xs
+
+theorem list_set_two (A M' B : List ρ) (x y : ρ) :
+    ((A ++ x :: (M' ++ [y]) ++ B).set A.length y).set (A.length + (M' ++ [y]).length) x
+      = (A ++ [y]) ++ M' ++ (x :: B) := by
+  apply List.ext_getElem?
+  intro i
+  simp only [List.getElem?_set, List.getElem?_append, List.getElem?_cons, List.length_append, List.length_cons,
+    List.length_nil, List.length_set]
+  grind
+
+theorem perm_two (A M' B : List ρ) (x y : ρ) :
+    ((A ++ [y]) ++ M' ++ (x :: B)).Perm (A ++ x :: (M' ++ [y]) ++ B) := by
+  simp only [List.append_assoc, List.cons_append, List.nil_append]
+  apply List.Perm.append_left
+  have h1 : (y :: (M' ++ x :: B)).Perm (y :: x :: (M' ++ B)) := List.Perm.cons _ List.perm_middle
+  have h2 : (x :: (M' ++ y :: B)).Perm (x :: y :: (M' ++ B)) := List.Perm.cons _ List.perm_middle
+  exact h1.trans ((List.Perm.swap _ _ _).trans h2.symm)
+
+theorem part_aux (p : ρ → Bool) (n : Nat) :
+    (∀ (A M B : List ρ) (f : Nat), M.length = n → n < f → (∀ a ∈ A, p a = true) → (∀ b ∈ B, p b = false) →
+      PartPost p (A ++ M ++ B)
+        ((partFwd p f ((A.length : Nat) : Int) ((A.length + M.length : Nat) : Int)).runList (A ++ M ++ B))) ∧
+    (∀ (A M B : List ρ) (x : ρ) (f : Nat), M.length = n → n < f → (∀ a ∈ A, p a = true) → (∀ b ∈ B, p b = false) →
+      p x = false →
+      PartPost p (A ++ x :: M ++ B)
+        ((partBwd p f ((A.length : Nat) : Int) ((A.length + M.length : Nat) : Int)).runList (A ++ x :: M ++ B))) := by
+  induction n with
+  | zero =>
+    constructor
+    · intro A M B f hM hf hA hB
+      have : M = [] := List.eq_nil_of_length_eq_zero hM
+      subst this
+      obtain ⟨f, rfl⟩ : ∃ g, f = g + 1 := ⟨f - 1, by omega⟩
+      refine ⟨A, B, ?_, hA, hB, by simp⟩
+      simp [partFwd, Prog.runList]
+    · intro A M B x f hM hf hA hB hx
+      have : M = [] := List.eq_nil_of_length_eq_zero hM
+      subst this
+      obtain ⟨f, rfl⟩ : ∃ g, f = g + 1 := ⟨f - 1, by omega⟩
+      refine ⟨A, x :: B, ?_, hA, ?_, by simp⟩
+      · simp [partBwd, Prog.runList]
+      · intro b hb; rcases List.mem_cons.1 hb with rfl | hb
+        · exact hx
+        · exact hB b hb
+  | succ n ih =>
+    obtain ⟨ihF, ihB⟩ := ih
+    constructor
+    · intro A M B f hM hf hA hB
+      obtain ⟨f, rfl⟩ : ∃ g, f = g + 1 := ⟨f - 1, by omega⟩
+      cases M with
+      | nil => simp at hM
+      | cons x M =>
+        have hne : ((A.length : Nat) : Int) ≠ ((A.length + (x :: M).length : Nat) : Int) := by simp; omega
+        have hx : (A ++ x :: M ++ B)[A.length]? = some x := by simp
+        rw [partFwd, if_neg hne, Prog.runList_read _ hx]
+        have e : A ++ x :: M ++ B = (A ++ [x]) ++ M ++ B := by simp
+        by_cases hp : p x = true
+        · simp only [hp, if_true]
+          have := ihF (A ++ [x]) M B f (by simpa using hM) (by omega)
+            (by intro a ha; rcases List.mem_append.1 ha with h | h; exact hA a h; simp at h; subst h; exact hp) hB
+          rw [e]
+          have c1 : ((A.length : Nat) : Int) + 1 = (((A ++ [x]).length : Nat) : Int) := by simp
+          have c2 : ((A.length + (x :: M).length : Nat) : Int) = (((A ++ [x]).length + M.length : Nat) : Int) := by
+            simp; omega
+          rw [c1, c2]; exact this
+        · have hp' : p x = false := by simpa using hp
+          simp only [hp', Bool.false_eq_true, if_false]
+          have := ihB A M B x f (by simpa using hM) (by omega) hA hB hp'
+          have c2 : ((A.length + (x :: M).length : Nat) : Int) - 1 = ((A.length + M.length : Nat) : Int) := by
+            simp; omega
+          rw [c2]; exact this
+    · intro A M B x f hM hf hA hB hx
+      obtain ⟨f, rfl⟩ : ∃ g, f = g + 1 := ⟨f - 1, by omega⟩
+      rcases List.eq_nil_or_concat M with rfl | ⟨M', y, rfl⟩
+      · simp at hM
+      · rw [List.concat_eq_append] at hM ⊢
+        have hM' : M'.length = n := by simpa using hM
+        have hne : ((A.length : Nat) : Int) ≠ ((A.length + (M' ++ [y]).length : Nat) : Int) := by simp; omega
+        have hy : (A ++ x :: (M' ++ [y]) ++ B)[A.length + (M' ++ [y]).length]? = some y := by
+          simp [List.getElem?_cons]
+        have hx' : (A ++ x :: (M' ++ [y]) ++ B)[A.length]? = some x := by simp
+        rw [partBwd, if_neg hne, Prog.runList_read _ hy]
+        by_cases hp : p y = true
+        · simp only [hp, if_true]
+          rw [Prog.runList_swap _ hx' hy]
+          have e : ((A ++ x :: (M' ++ [y]) ++ B).set A.length y).set (A.length + (M' ++ [y]).length) x
+              = (A ++ [y]) ++ M' ++ (x :: B) := by
+            exact list_set_two A M' B x y
+          have := ihF (A ++ [y]) M' (x :: B) f hM' (by omega)
+            (by intro a ha; rcases List.mem_append.1 ha with h | h; exact hA a h; simp at h; subst h; exact hp)
+            (by intro b hb; rcases List.mem_cons.1 hb with rfl | hb; exact hx; exact hB b hb)
+          have c1 : ((A.length : Nat) : Int) + 1 = (((A ++ [y]).length : Nat) : Int) := by simp
+          have c2 : ((A.length + (M' ++ [y]).length : Nat) : Int) = (((A ++ [y]).length + M'.length : Nat) : Int) := by
+            simp; omega
+          rw [e, c1, c2]
+          obtain ⟨A', B', h1, h2, h3, h4⟩ := this
+          exact ⟨A', B', h1, h2, h3, h4.trans (perm_two A M' B x y)⟩
+        · have hp' : p y = false := by simpa using hp
+          simp only [hp', Bool.false_eq_true, if_false]
+          have := ihB A M' (y :: B) x f hM' (by omega) hA
+            (by intro b hb; rcases List.mem_cons.1 hb with rfl | hb; exact hp'; exact hB b hb) hx
+          have c2 : ((A.length + (M' ++ [y]).length : Nat) : Int) - 1 = ((A.length + M'.length : Nat) : Int) := by
+            simp; omega
+          have e : A ++ x :: (M' ++ [y]) ++ B = A ++ x :: M' ++ y :: B := by simp
+          rw [c2, e]; exact this
+
+/-- `std::partition(first, first + n, p)`: the result is a permutation of the input, the returned position is the number
+    of elements satisfying `p`, everything before it satisfies `p`, nothing from it on does -/
+theorem partitionProg_list (p : ρ → Bool) (xs : List ρ) :
+    ∃ ys, (partitionProg p xs.length).runList xs = some (ys, (((xs.filter p).length : Nat) : Int)) ∧
+      ys.Perm xs ∧ (∀ a ∈ ys.take (xs.filter p).length, p a = true) ∧ (∀ b ∈ ys.drop (xs.filter p).length, p b = false) := by
+  obtain ⟨A', B', h1, h2, h3, h4⟩ := (part_aux p xs.length).1 [] xs [] (xs.length + 1) rfl (by omega)
+    (by simp) (by simp)
+  have hA : A'.filter p = A' := List.filter_eq_self.2 h2
+  have hB : B'.filter p = [] := List.filter_eq_nil_iff.2 (by intro b hb; simp [h3 b hb])
+  have hk : (xs.filter p).length = A'.length := by
+    have := (h4.filter p).length_eq
+    simp only [List.filter_append, hA, hB, List.append_nil, List.nil_append] at this
+    exact this.symm
+  refine ⟨A' ++ B', ?_, by simpa using h4, ?_, ?_⟩
+  · unfold partitionProg
+    simp only [List.nil_append, List.append_nil, List.length_nil, Nat.zero_add] at h1
+    rw [hk]; simpa using h1
+  · rw [hk]; simpa using h2
+  · rw [hk]; simpa using h3
+
+/-! ### unique -/
+
+theorem uniqueLoop_aux (eq : ρ → ρ → Bool) (K : List ρ) (a : ρ) (J rest : List ρ) (hJ : J ≠ []) :
+    ∃ ys, (uniqueLoop eq rest.length ((K.length : Nat) : Int) ((K.length + J.length : Nat) : Int)).runList
+          (K ++ a :: J ++ rest)
+        = some (ys, ((K.length + 1 + (uniqAfter eq a rest).length : Nat) : Int)) ∧
+      ys.length = (K ++ a :: J ++ rest).length ∧
+      ys.take (K.length + 1 + (uniqAfter eq a rest).length) = K ++ a :: uniqAfter eq a rest := by
+  induction rest generalizing K a J with
+  | nil =>
+    refine ⟨_, by simp [uniqueLoop, Prog.runList, uniqAfter], rfl, ?_⟩
+    have : K ++ a :: J ++ [] = (K ++ [a]) ++ J := by simp
+    have hl : K.length + 1 + (uniqAfter eq a []).length = (K ++ [a]).length := by simp [uniqAfter]
+    rw [this, hl, List.take_left]; simp [uniqAfter]
+  | cons b rest ih =>
+    have ha : (K ++ a :: J ++ b :: rest)[K.length]? = some a := by simp
+    have hb : (K ++ a :: J ++ b :: rest)[K.length + J.length + 1]? = some b := by
+      have : K ++ a :: J ++ b :: rest = (K ++ a :: J) ++ b :: rest := by simp
+      rw [this, List.getElem?_append_right (by simp; omega)]
+      have : K.length + J.length + 1 - (K ++ a :: J).length = 0 := by simp; omega
+      rw [this]; rfl
+    rw [List.length_cons, uniqueLoop, Prog.runList_read _ ha, natCast_succ', Prog.runList_read _ hb]
+    by_cases he : eq a b = true
+    · simp only [he, if_true]
+      obtain ⟨ys, h1, h2, h3⟩ := ih K a (J ++ [b]) (by simp)
+      have e : K ++ a :: J ++ b :: rest = K ++ a :: (J ++ [b]) ++ rest := by simp
+      have c : K.length + J.length + 1 = K.length + (J ++ [b]).length := by simp; omega
+      rw [e, c]
+      refine ⟨ys, ?_, h2, ?_⟩
+      · rw [h1]; simp [uniqAfter, he]
+      · simpa [uniqAfter, he] using h3
+    · have he' : eq a b = false := by simpa using he
+      simp only [he', Bool.false_eq_true, if_false]
+      cases J with
+      | nil => exact absurd rfl hJ
+      | cons j0 J =>
+      have hd : K.length + 1 < (K ++ a :: (j0 :: J) ++ b :: rest).length := by simp
+      rw [natCast_succ', Prog.runList_assign _ hd hb]
+      have e : (K ++ a :: (j0 :: J) ++ b :: rest).set (K.length + 1) b = (K ++ [a]) ++ b :: (J ++ [b]) ++ rest := by
+        apply List.ext_getElem?
+        intro i
+        simp only [List.getElem?_set, List.getElem?_append, List.getElem?_cons, List.length_append, List.length_cons,
+          List.length_nil]
+        grind
+      have c1 : ((K.length + 1 : Nat) : Int) = (((K ++ [a]).length : Nat) : Int) := by simp
+      have c2 : ((K.length + (j0 :: J).length + 1 : Nat) : Int) = (((K ++ [a]).length + (J ++ [b]).length : Nat) : Int) := by
+        simp only [List.length_append, List.length_cons, List.length_nil]; omega
+      obtain ⟨ys, h1, h2, h3⟩ := ih (K ++ [a]) b (J ++ [b]) (by simp)
+      rw [e, c2, c1]
+      refine ⟨ys, ?_, ?_, ?_⟩
+      · rw [h1]; simp [uniqAfter, he']; omega
+      · rw [h2]; simp
+      · have : K.length + 1 + (uniqAfter eq a (b :: rest)).length = (K ++ [a]).length + 1 + (uniqAfter eq b rest).length := by
+          simp [uniqAfter, he']; omega
+        rw [this, h3]; simp [uniqAfter, he']
+
+theorem uniqueFind_aux (eq : ρ → ρ → Bool) (P : List ρ) (a : ρ) (rest : List ρ) :
+    ∃ ys, (uniqueFind eq rest.length ((P.length : Nat) : Int)).runList (P ++ a :: rest)
+        = some (ys, ((P.length + 1 + (uniqAfter eq a rest).length : Nat) : Int)) ∧
+      ys.length = (P ++ a :: rest).length ∧
+      ys.take (P.length + 1 + (uniqAfter eq a rest).length) = P ++ a :: uniqAfter eq a rest := by
+  induction rest generalizing P a with
+  | nil =>
+    refine ⟨_, by simp [uniqueFind, Prog.runList, uniqAfter], rfl, ?_⟩
+    have hl : P.length + 1 + (uniqAfter eq a []).length = (P ++ [a]).length := by simp [uniqAfter]
+    rw [hl, List.take_length]; simp [uniqAfter]
+  | cons b rest ih =>
+    have ha : (P ++ a :: b :: rest)[P.length]? = some a := by simp
+    have hb : (P ++ a :: b :: rest)[P.length + 1]? = some b := by
+      have : P ++ a :: b :: rest = (P ++ [a]) ++ b :: rest := by simp
+      rw [this, List.getElem?_append_right (by simp)]; simp
+    rw [List.length_cons, uniqueFind, Prog.runList_read _ ha, natCast_succ', Prog.runList_read _ hb]
+    by_cases he : eq a b = true
+    · simp only [he, if_true]
+      obtain ⟨ys, h1, h2, h3⟩ := uniqueLoop_aux eq P a [b] rest (by simp)
+      have e : P ++ a :: b :: rest = P ++ a :: [b] ++ rest := by simp
+      have c : P.length + 1 = P.length + [b].length := by simp
+      rw [e, c]
+      refine ⟨ys, ?_, h2, ?_⟩
+      · rw [h1]; simp [uniqAfter, he]
+      · simpa [uniqAfter, he] using h3
+    · have he' : eq a b = false := by simpa using he
+      simp only [he', Bool.false_eq_true, if_false]
+      obtain ⟨ys, h1, h2, h3⟩ := ih (P ++ [a]) b
+      have e : P ++ a :: b :: rest = (P ++ [a]) ++ b :: rest := by simp
+      have c : ((P.length + 1 : Nat) : Int) = (((P ++ [a]).length : Nat) : Int) := by simp
+      rw [e, c]
+      refine ⟨ys, ?_, h2, ?_⟩
+      · rw [h1]; simp [uniqAfter, he']; omega
+      · have t : P.length + 1 + (uniqAfter eq a (b :: rest)).length = (P ++ [a]).length + 1 + (uniqAfter eq b rest).length := by
+          simp [uniqAfter, he']; omega
+        rw [t, h3]; simp [uniqAfter, he']
+
+/-- `std::unique(first, first + n, eq)`: the prefix up to the returned position is the input with every element equal
+    (under `eq`) to the last kept one dropped; what lies behind is unspecified (here: old values) -/
+theorem uniqueProg_list (eq : ρ → ρ → Bool) (xs : List ρ) :
+    ∃ ys, (uniqueProg eq xs.length).runList xs = some (ys, (((uniq eq xs).length : Nat) : Int)) ∧
+      ys.length = xs.length ∧ ys.take (uniq eq xs).length = uniq eq xs := by
+  cases xs with
+  | nil => exact ⟨[], by simp [uniqueProg, Prog.runList, uniq], rfl, by simp [uniq]⟩
+  | cons a rest =>
+    obtain ⟨ys, h1, h2, h3⟩ := uniqueFind_aux eq [] a rest
+    refine ⟨ys, ?_, by simpa using h2, ?_⟩
+    · simp only [uniqueProg, List.length_cons, Nat.add_one_ne_zero, if_false, Nat.add_sub_cancel, uniq]
+      simpa [Nat.add_comm] using h1
+    · simpa [uniq, Nat.add_comm] using h3
+
 end Multi
